@@ -16,6 +16,12 @@ Callees are the recording functions `f`, `g` and dotted attribute paths `tk.v2.s
 (1-4 dots) through module-like objects whose levels bind the same attribute names to different
 recording functions (`build_mods`); the Lean driver gets the object graph and does the lookup itself.
 
+Two further stages look at several call terms / several designs at once: pairs of calls in one formula
+that differ only in the order or grouping of the operands of `+`, `*`, `==`, `!=` (numeric and string
+columns; callee `h`), which must be two terms with the value of their own text each; and one
+`Environment` object passed as `env=` to several `design_matrices` calls whose `extra_namespace`
+dicts bind the same names to other objects, each design judged over the names of its own call.
+
 Failures of the specification on the implementation's output are classified KF-C12-D15 /
 KF-C12-D16 only when the Lean guard puts the case in that class *and* the implementation's output
 equals the model's prediction; anything else is reported as a violation.
@@ -60,6 +66,18 @@ ASSUMPTIONS = [
     "the model's tree over the frame's columns at that moment); frames have 2-7 rows of dyadic float64 values, default or string "
     "index; the group-specific path is observed through `(0 + <call> | q)` with every group of the "
     "new frame seen in training (the entry of each row in the column of its group = the call's value)",
+    "commuting stage: the frame has two further string columns s, t (4 rows, drawn per seed so that "
+    "s + t != t + s row-wise somewhere); calls over them go to the recording callee `h` (like `f`, "
+    "strings coded order-sensitively), which the Lean model does not evaluate: the number / names of "
+    "the terms are compared with the model (`c12_pair`) and with Python's ast, the values and the "
+    "received arguments with Python's eval of each term's own source text; operands of the swapped "
+    "node are pairwise different texts; comparisons are not nested in comparisons",
+    "environment stage: the names bound by the Environment object (loc, base, f, g) and by the "
+    "extra_namespace dicts (fa, fb, shift, w) are disjoint and differ from the column names, so "
+    "the lookup order data > env > extra_namespace is not exercised; functions are "
+    "`lambda v, k=1: v * m + k` with a multiplier per binding (the Lean driver gets them as "
+    "top-level entries of its object table), variables small dyadic scalars or float64 columns; "
+    "operators + - * / only; the designs of a round are evaluated one after the other in one process",
     "String-level injectivity of the name normalisation (equal names => equal token sequences) is "
     "checked here against Python's ast, not proved in Lean",
 ]
@@ -137,6 +155,27 @@ def f(*args, **kwargs):
 def g(v, k=1):
     LOG.append(["g", [canon(v)], [["k", canon(k)]]])
     return v * 2 + k
+
+
+def _code(v):
+    """`_numof` extended to columns of strings: an order-sensitive code of every entry"""
+    if isinstance(v, (pd.Series, np.ndarray)):
+        a = np.asarray(v)
+        if a.shape == (N,) and a.dtype.kind not in "iufb":
+            return np.array([float(sum((i + 1) * ord(ch) for i, ch in enumerate(str(e))) % 97)
+                             for e in a.tolist()])
+    return _numof(v)
+
+
+def h(*args, **kwargs):
+    """`f` for the stages with string columns (not mirrored in Lean: judged against Python's eval)"""
+    LOG.append(["h", [canon(a) for a in args], [[k, canon(v)] for k, v in kwargs.items()]])
+    out = np.zeros(N)
+    for i, a in enumerate(args):
+        out = out + (i + 1) * _code(a)
+    for k, v in kwargs.items():
+        out = out + (10 + sum(map(ord, k)) % 10) * _code(v)
+    return out
 
 
 # ------------------------------------------------------------------------------------------------
@@ -485,10 +524,15 @@ def impl_batch(cases):
         return res
 
 
-def impl_single(text):
-    """One call term on its own: resolution (model_description) then evaluation."""
+def impl_single(text, data=None, ns=None, env=None):
+    """One call term on its own: resolution (model_description) then evaluation.  `data`, `ns`
+    (extra_namespace) and `env` (an Environment object passed as `env=`) default to the frame and
+    the names of the other stages."""
     from formulae import design_matrices, model_description
     del LOG[:]
+    data = _data() if data is None else data
+    ns = namespace() if ns is None else ns
+    kw = {} if env is None else {"env": env}
     try:
         md = model_description("y ~ 0 + " + text)
         names = [t.name for t in md.common_terms]
@@ -497,7 +541,7 @@ def impl_single(text):
     try:
         with warnings.catch_warnings(), np.errstate(all="ignore"):
             warnings.simplefilter("ignore")
-            dm = design_matrices("y ~ 0 + " + text, _data(), extra_namespace=namespace())
+            dm = design_matrices("y ~ 0 + " + text, data, extra_namespace=ns, **kw)
     except Exception as e:  # noqa
         return {"error": "eval", "cls": type(e).__name__, "name": names[0] if len(names) == 1 else names}
     names = list(dm.common.terms) if dm.common is not None else []
@@ -507,11 +551,28 @@ def impl_single(text):
 
 
 _PYNS = {}
+_PYNS_OWN = []       # innermost `names_of(...)`: the names of one particular design_matrices call
+
+
+class names_of:
+    """Python's eval (`py_eval`) reads its names from `ns` inside this block: the oracle of a case
+    whose design_matrices call has its own data / env / extra_namespace"""
+
+    def __init__(self, ns):
+        self.ns = ns
+
+    def __enter__(self):
+        _PYNS_OWN.append(self.ns)
+
+    def __exit__(self, *a):
+        _PYNS_OWN.pop()
 
 
 def _py_namespace():
     """The names of the formula environment, for Python's own eval: the columns as the Series the
     data mask hands out, the callees, `I` of formulae.transforms."""
+    if _PYNS_OWN:
+        return dict(_PYNS_OWN[-1])
     if not _PYNS:
         from formulae.transforms import TRANSFORMS
         d = _data()
@@ -731,27 +792,68 @@ def run_whole(res, texts, kind):
         judge(res, {"s": t, "kind": kind, "whole": True}, io, lo, kind)
 
 
-def run_pairs(res, pairs, kind):
-    """pairs of call texts in one formula: textual variants must be one term, different calls two."""
+def run_pairs(res, pairs, kind, cols=None):
+    """pairs of call texts in one formula: textual variants must be one term, different calls two.
+    With `cols` (further columns of the frame, e.g. string columns; the callee `h` is then bound
+    too) every term that is built must moreover hold the value Python gives for its own source
+    text, and the callees must have received what Python passes them, call after call."""
     from formulae import design_matrices
     lean = ask([{"op": "c12_pair", "a": a, "b": b} for a, b in pairs])
+    data, ns = _data(), namespace()
+    pyns = None
+    if cols is not None:
+        from formulae.transforms import TRANSFORMS
+        for c_, v_ in cols.items():
+            data[c_] = list(v_)
+        ns["h"] = h
+        pyns = dict(ns, I=TRANSFORMS["I"], **{c_: data[c_] for c_ in data.columns if c_ != "y"})
     for (a, b), lo in zip(pairs, lean):
         res.evaluations += 1
         res.count("kind:" + kind)
         case = {"a": a, "b": b, "kind": kind}
+        if cols is not None:
+            case["cols"] = {c_: list(v_) for c_, v_ in cols.items()}
         sc = same_call(_unbrace(a), _unbrace(b))      # {e} is to be read as I(e)
         try:
+            del LOG[:]
             with warnings.catch_warnings(), np.errstate(all="ignore"):
                 warnings.simplefilter("ignore")
-                dm = design_matrices(f"y ~ 0 + {a} + {b}", _data(), extra_namespace=namespace())
+                dm = design_matrices(f"y ~ 0 + {a} + {b}", data, extra_namespace=ns)
             names = list(dm.common.terms) if dm.common is not None else []
             io = {"terms": names, "columns": int(np.asarray(dm.common.design_matrix).shape[1])
                   if dm.common is not None else 0}
+            if cols is not None:
+                io["values"] = [_column(dm, n_) for n_ in names]
+                io["log"] = list(LOG)
         except Exception as e:  # noqa
             io = {"error": type(e).__name__}
         if "err" in lo or sc is None:
             res.count("pair:skipped")
             continue
+        if cols is not None:
+            # each call term evaluates like the Python expression it spells (its own source text)
+            with names_of(pyns):
+                pys = [py_eval(_unbrace(t_)) for t_ in ((a,) if sc else (a, b))]
+            if any("syntax_error" in p_ for p_ in pys):
+                res.count("pair:python syntax error")
+            elif any("error" in p_ for p_ in pys):
+                res.count("pair:python error")
+                if "terms" in io:
+                    res.failures.append({"case": case, "impl": io, "expected": pys, "finding": None,
+                                         "why": "Python fails to evaluate one of the calls, the "
+                                                "implementation builds the terms"})
+            elif "terms" not in io:
+                res.failures.append({"case": case, "impl": io, "expected": pys, "finding": None,
+                                     "why": "Python evaluates both calls, the implementation fails"})
+            elif len(io["terms"]) == len(pys):
+                want_obs = {"value": [p_["value"] for p_ in pys],
+                            "log": [e_ for p_ in pys for e_ in p_["log"]]}
+                if not obs_equal(want_obs, {"value": io["values"], "log": io["log"]}):
+                    res.failures.append({
+                        "case": case, "impl": io, "expected": want_obs, "finding": None,
+                        "why": "a term's value / the arguments the callees received differ from "
+                               "Python's evaluation of the term's own text"})
+                res.count("pair:values compared")
         res.traces += 1
         if "terms" in io:
             # the model: one term iff `__eq__` identifies the lazy trees (the first one is kept);
@@ -978,6 +1080,196 @@ def run_predict(res, texts, seed, start=0):
                    "Python's evaluation of the same text over the frame's current columns"})
 
 # ------------------------------------------------------------------------------------------------
+# calls that differ only in the order / grouping of the operands of a commutative-looking operator
+# ------------------------------------------------------------------------------------------------
+COMM_OPS = ["+", "*", "==", "!="]
+NUM_ATOMS = [("leaf", t_) for t_ in ["x", "z", "c", "2", "0.5", "3", "g(x)", "g(z, k=2)"]] + [
+    ("bin", "/", ("leaf", "x"), ("leaf", "2")), ("bin", "-", ("leaf", "z"), ("leaf", "1")),
+    ("bin", "*", ("leaf", "x"), ("leaf", "z")), ("bin", "+", ("leaf", "c"), ("leaf", "z"))]
+STR_ATOMS = ["s", "t", "'a'", "'b c'", "'u'"]
+
+
+def string_columns(rng):
+    """two string columns whose row-wise concatenation is not commutative"""
+    while True:
+        s_ = [rng.choice(["u", "v", "w", "uv", "", "b c"]) for _ in range(N)]
+        t_ = [rng.choice(["u", "v", "w", "vu", "a", "c b"]) for _ in range(N)]
+        if any(a + b != b + a for a, b in zip(s_, t_)) and len(set(s_)) > 1 and len(set(t_)) > 1:
+            return {"s": s_, "t": t_}
+
+
+def _shape(op, items, rng):
+    """one binary tree over `items` (in this order) with the operator `op` at every node"""
+    if len(items) == 1:
+        return items[0]
+    k = rng.randrange(1, len(items))
+    return ("bin", op, _shape(op, items[:k], rng), _shape(op, items[k:], rng))
+
+
+def gen_commuting_pair(rng):
+    """(a, b, description): two call texts that differ only in the order (and possibly the grouping)
+    of the operands of one `+`, `*`, `==` or `!=` node; the operand texts are distinct, so the two
+    texts spell different Python calls with different term names."""
+    op = rng.choice(COMM_OPS)
+    strings = rng.random() < 0.5
+    if strings:
+        if op == "*":                                   # repetition: a string and a small integer
+            items = [rng.choice(["s", "t", "'a'"]), rng.choice(["2", "3"])]
+        else:
+            items = rng.sample(STR_ATOMS, 3 if (op == "+" and rng.random() < 0.5) else 2)
+            if not any(i_ in ("s", "t") for i_ in items):
+                items[0] = rng.choice(["s", "t"])
+    else:
+        items = rng.sample(NUM_ATOMS, 3 if (op in "+*" and rng.random() < 0.5) else 2)
+    if op in CMP:
+        items = items[:2]
+    atoms = [i_ if isinstance(i_, tuple) else ("leaf", i_) for i_ in items]
+    perm = list(atoms)
+    while perm == atoms:
+        rng.shuffle(perm)
+    node_a, node_b = _shape(op, atoms, rng), _shape(op, perm, rng)
+    kind = "bool" if op in CMP else ("str" if strings else "num")
+
+    def context(node, how, other):
+        if how == "outer" and kind == "num":
+            node = ("bin", other[0], node, ("leaf", other[1])) if other[2] else \
+                ("bin", other[0], ("leaf", other[1]), node)
+        elif how == "outer" and kind == "str":
+            node = ("bin", "+", node, ("leaf", "'-'")) if other[2] else ("bin", "+", ("leaf", "t"), node)
+        elif how == "outer":
+            node = ("bin", other[0], node, ("leaf", "2"))
+        elif how == "call" and kind == "num":
+            node = ("call", "g", [node], [("k", ("leaf", other[1]))] if other[2] else [])
+        callee = "h" if (strings or other[3]) else "f"
+        if how == "kw":
+            # `k = a == b` is not in the formula grammar: a comparison as keyword value is grouped
+            return ("call", callee, [("leaf", "x")], [("k", ("par", node) if kind == "bool" else node)])
+        if how == "second":
+            return ("call", callee, [("leaf", "z"), node], [])
+        if how == "both":
+            return ("call", callee, [node], [("m", ("leaf", "x"))])
+        return ("call", callee, [node], [])
+    how = rng.choice(["arg", "arg", "kw", "second", "both", "outer", "call"])
+    other = (rng.choice(["+", "-", "*", "/"]), rng.choice(["x", "z", "c", "2"]), rng.random() < 0.5,
+             rng.random() < 0.5)
+    ta, tb = context(node_a, how, other), context(node_b, how, other)
+    a, b = join(render(ta, "py"), rng), join(render(tb, "py"), rng)
+    return a, b, f"{op} over {'string' if strings else 'numeric'} operands, {how}"
+
+
+# ------------------------------------------------------------------------------------------------
+# one Environment object passed as env= to several design_matrices calls
+# ------------------------------------------------------------------------------------------------
+ENV_FUNS = ["fa", "fb"]          # bound by every extra_namespace, to another function each time
+ENV_VARS = ["shift", "w"]        # bound by every extra_namespace, to another value each time
+
+
+def _capture_env(flavour, loc, base):   # noqa: the locals `loc`, `base` are what is captured
+    """an Environment whose own (inner) namespaces bind `loc`, `base`, `f`, `g`"""
+    from formulae.environment import Environment
+    if flavour == "capture":
+        return Environment.capture()             # locals of this frame + globals of this module
+    return Environment([{"loc": loc, "base": base}, {"f": f, "g": g}])
+
+
+def gen_env_expr(rng, depth):
+    r = rng.random()
+    if depth <= 0 or r < 0.3:
+        return ("leaf", rng.choice(["x", "z", "shift", "w", "shift", "w", "base", "2", "0.5", "3"]))
+    if r < 0.6:
+        return ("bin", rng.choice(["+", "-", "*", "/", "+", "*"]), gen_env_expr(rng, depth - 1),
+                gen_env_expr(rng, depth - 1))
+    callee = rng.choice(ENV_FUNS + ENV_FUNS + ["loc", "g"])
+    kws = [("k", gen_env_expr(rng, depth - 2))] if rng.random() < 0.4 else []
+    return ("call", callee, [gen_env_expr(rng, depth - 1)], kws)
+
+
+def gen_env_text(rng):
+    """a call term over the columns, the names of the Environment object and the names every
+    extra_namespace binds (at least one of the latter)"""
+    while True:
+        if rng.random() < 0.6:
+            args = [gen_env_expr(rng, rng.randrange(0, 3)) for _ in range(rng.choice([1, 2, 2, 3]))]
+            kws = [(k_, gen_env_expr(rng, 2)) for k_ in rng.sample(["k", "m"], rng.choice([0, 0, 1, 2]))]
+            t = ("call", "f", args, kws)
+        else:       # the callee itself comes from the extra_namespace; its value has to be a column
+            first = ("bin", rng.choice(["+", "-", "*"]), ("leaf", rng.choice(["x", "z"])),
+                     gen_env_expr(rng, 1))
+            kws = [("k", gen_env_expr(rng, 2))] if rng.random() < 0.5 else []
+            t = ("call", rng.choice(ENV_FUNS), [first], kws)
+        text = join(render(t, "py"), rng)
+        if any(n_ in text for n_ in ENV_FUNS + ENV_VARS):
+            return text
+
+
+def _lean_num(v):
+    fr = Fraction(v)
+    return [int(fr.numerator), int(fr.denominator)]
+
+
+def run_env_round(res, seed, rnd):
+    """One Environment object, 2-4 design_matrices calls with env=<that object> and an
+    extra_namespace each that binds the same names (functions and argument variables) to other
+    objects.  Every design is judged like any other call term (`judge`): against Python's eval over
+    the names of ITS OWN call, and against the Lean model / `Spec.C12.pyEval` given those names."""
+    rng = rng_for(seed, "c12", "env", rnd)
+    from formulae.transforms import TRANSFORMS
+    assert not any(n_ in globals() for n_ in ENV_FUNS + ENV_VARS + ["loc", "base"])
+    flavour = rng.choice(["capture", "capture", "explicit"])
+    mults = rng.sample(range(3, 400), 12)
+    m_loc, base = mults.pop(), rng.choice([2, 5, 0.5, -1])
+    env = _capture_env(flavour, make_unit(m_loc), base)
+    k = rng.choice([2, 2, 3, 4])
+    shared = gen_env_text(rng) if rng.random() < 0.5 else None
+    data = _data()
+    todo, earlier = [], []
+    for i in range(k):
+        extra, desc, lvars = {}, {}, {}
+        lmods = [{"p": ["loc"], "m": [m_loc, 1]}]
+        for fn in ENV_FUNS:
+            if i and rng.random() < 0.1:
+                desc[fn] = "unbound"
+                continue
+            m = mults.pop()
+            extra[fn] = make_unit(m)
+            desc[fn] = f"lambda v, k=1: v * {m} + k"
+            lmods.append({"p": [fn], "m": [m, 1]})
+        for vn in ENV_VARS:
+            if i and rng.random() < 0.1:
+                desc[vn] = "unbound"
+                continue
+            if rng.random() < 0.3:
+                vals = _dyadic(rng, N, 1, 9)
+                extra[vn] = np.array(vals)
+                lvars[vn] = {"v": [_lean_num(t_) for t_ in vals]}
+                desc[vn] = vals
+            else:
+                val = rng.choice([1, 2, 3, 7, 10, 100, 0.5, 2.5, -1, -4])
+                extra[vn] = val
+                lvars[vn] = {"n": _lean_num(val)}
+                desc[vn] = val
+        text = shared or gen_env_text(rng)
+        io = impl_single(text, data=data, ns=extra, env=env)
+        pyns = dict(extra, f=f, g=g, loc=make_unit(m_loc), base=base, x=data["x"], z=data["z"],
+                    I=TRANSFORMS["I"])
+        rq = {"op": "c12", "s": text, "n": N, "mods": lmods,
+              "vars": dict({"x": LEAN_VARS["x"], "z": LEAN_VARS["z"], "base": {"n": _lean_num(base)}},
+                           **lvars)}
+        if isinstance(io.get("name"), str):
+            rq["impl_name"] = io["name"]
+        case = {"s": text, "kind": "env_reuse", "whole": True, "round": rnd, "design": i + 1, "of": k,
+                "env": "one Environment object (" + flavour + f": loc = lambda v, k=1: v * {m_loc} + k, "
+                       f"base = {base}, f, g) passed as env= to every design of the round",
+                "extra_namespace": desc, "extra_namespaces_of_the_earlier_designs": list(earlier)}
+        earlier.append(desc)
+        todo.append((case, io, pyns, rq))
+    for (case, io, pyns, _), lo in zip(todo, ask([t_[3] for t_ in todo])):
+        with names_of(pyns):
+            judge(res, case, io, lo, "env_reuse")
+        res.count(f"env_reuse:design {case['design']}")
+
+
+# ------------------------------------------------------------------------------------------------
 def explore(tier, seed, res=None, replay=None):
     res = res or Result()
     res.rule = ("call terms f(<expr>) over columns x, z (dyadic float64), scalar c, literals, "
@@ -989,14 +1281,28 @@ def explore(tier, seed, res=None, replay=None):
                 "group-specific term) evaluated through evaluate_new_data on a new frame, on the same "
                 "frame object after in-place edits (column / cell assignments), on the same object "
                 "again, on a fresh copy and on another frame, each compared with Python's eval over "
-                "the frame's columns at that moment and with what the recording callees received")
+                "the frame's columns at that moment and with what the recording callees received; "
+                "commuting stage: pairs of calls in one formula that differ only in the order / the "
+                "grouping of the operands of one +, *, == or != node (2-3 operands: numeric columns, "
+                "scalars, literals, nested calls; string columns s, t and string literals: "
+                "concatenation, repetition, comparison) as positional / keyword argument, under "
+                "another operator or inside a nested call: two terms, each with the value and the "
+                "received arguments of Python's eval of its own text; environment stage: one "
+                "Environment object (Environment.capture() of a frame / explicit namespaces) passed "
+                "as env= to 2-4 design_matrices calls whose extra_namespace dicts bind the same "
+                "names (callees fa, fb; argument variables shift, w: scalars or columns; sometimes "
+                "left unbound) to other objects, each design judged against Python's eval and the "
+                "Lean model over the names of its own call")
     # the module-like objects depend on the seed only (a replay rebuilds the same objects)
     build_mods(rng_for(seed, "c12", "mods"))
     if replay is not None:
         if replay.get("kind") == "predict":
             run_predict(res, [replay["s"]], seed, replay.get("path", 0))
+        elif replay.get("kind") == "env_reuse":
+            run_env_round(res, seed, replay.get("round", 0))
         elif "a" in replay:
-            run_pairs(res, [(replay["a"], replay["b"])], replay.get("kind", "replay"))
+            run_pairs(res, [(replay["a"], replay["b"])], replay.get("kind", "replay"),
+                      cols=replay.get("cols"))
         elif replay.get("whole"):
             run_whole(res, [replay["s"]], "replay")
         else:
@@ -1135,6 +1441,31 @@ def explore(tier, seed, res=None, replay=None):
               ("g(x, k='a')", "g(x, k='b')"), ("f(x, 2)", "f(x, k=2)"), ("f(x)", "g(x)"),
               ("f(x, k=2)", "f(x,k = 2)")]
     run_pairs(res, pairs, "pairs")
+
+    # 5b. two calls that differ only in the order / grouping of the operands of one `+`, `*`, `==`
+    #     or `!=` node (numeric and string columns): two terms, each with the value of its own text
+    rc = rng_for(seed, "c12", "commute")
+    cols = string_columns(rc)
+    cpairs, how = [], {}
+    for i in range(160 if quick else 3000):
+        a, b, d = gen_commuting_pair(rc)
+        cpairs.append((a, b))
+        how[d] = how.get(d, 0) + 1
+    cpairs += [("h(s + t)", "h(t + s)"), ("f(x + z)", "f(z + x)"), ("f(x * z)", "f(z * x)"),
+               ("f(x == z)", "f(z == x)"), ("f(x != z)", "f(z != x)"), ("h(s == t)", "h(t == s)"),
+               ("h(x, k=s + t)", "h(x, k=t + s)"), ("f(x, k=z * 2)", "f(x, k=2 * z)"),
+               ("f(x + z + c)", "f(x + (c + z))"), ("h(s + t + 'a')", "h(s + ('a' + t))"),
+               ("f(x + z, k=x * 2)", "f(z + x, k=2 * x)"), ("h(s * 2)", "h(2 * s)")]
+    for d, n_ in sorted(how.items()):
+        res.count("commute:" + d, n_)
+    res.notes.append(f"commuting operands: {len(cpairs)} pairs over the frame with string columns "
+                     f"s = {cols['s']}, t = {cols['t']}")
+    run_pairs(res, cpairs, "commute", cols=cols)
+
+    # 8. one Environment object passed as env= to 2-4 design_matrices calls whose extra_namespace
+    #    dicts bind the same names (functions, argument variables) to other objects
+    for rnd in range(40 if quick else 600):
+        run_env_round(res, seed, rnd)
 
     # 7. prediction: call terms through common / group evaluate_new_data on new frames, on the same
     #    frame object after in-place edits, on fresh copies
